@@ -179,6 +179,7 @@ class _St:
         self.lists: dict[str, dict] = {}  # name -> {'base': chain length where the list was created, 'entries': [(relative chain, final)]}
         self.cenv = dict(cenv)
         self.loopspec: dict[str, tuple] = {}  # loop var -> (src, axis, pred)
+        self.tagmap: dict[str, tuple] = {}  # name -> (node var, constant dict): name = DICT.get(node.tag)
         self.chain: list = []  # ('loop', var, spec) / ('guard', var, pred, polarity) from the function top to here
 
     def node(self, e: ast.AST) -> str | None:
@@ -207,6 +208,7 @@ class Extractor:
         self.mark_tags = mark_tags or {}  # tag -> mark name, applied when a Loop enumerates that tag
         self.ignore = set(ignore_funcs)
         self.sites: list[str] = []
+        self.filters: list[tuple] = []  # (function, loop var, test) value-dependent early exits in the body of a marked loop
 
     # ------------------------------------------------------------ constants
     def fold(self, fi: FuncInfo, e: ast.AST, st: _St):
@@ -363,6 +365,29 @@ class Extractor:
             rs = [self.tag_test(fi, v, st) for v in t.values]
             if all(rs) and len({r[0] for r in rs}) == 1:
                 return rs[0][0], Pred("and" if isinstance(t.op, ast.And) else "or", sub=[r[1] for r in rs])
+            return None
+        if isinstance(t, ast.Name) and t.id in st.tagmap:
+            var, table = st.tagmap[t.id]
+            return var, Pred("in", frozenset(k for k, val in table.items() if val))
+        if isinstance(t, ast.Compare) and len(t.ops) == 1 and isinstance(t.left, ast.Name) and t.left.id in st.tagmap:
+            var, table = st.tagmap[t.left.id]
+            op, rhs = t.ops[0], t.comparators[0]
+            val = self.fold(fi, rhs, st)
+            if val is UNKNOWN:
+                return None
+            keys_eq = lambda pred: frozenset(k for k, x in table.items() if pred(x))
+            if isinstance(op, (ast.Is, ast.IsNot)) and val is None:
+                pr = Pred("in", frozenset(table))  # looked-up value is not None  <=>  the tag is a key
+                return var, (Pred("not", sub=[pr]) if isinstance(op, ast.Is) else pr)
+            if isinstance(op, (ast.Eq, ast.NotEq)):
+                pr = Pred("in", keys_eq(lambda x: x == val))
+                return var, (pr if isinstance(op, ast.Eq) else Pred("not", sub=[pr]))
+            if isinstance(op, (ast.In, ast.NotIn)):
+                try:
+                    pr = Pred("in", keys_eq(lambda x: x in val))
+                except TypeError:
+                    return None
+                return var, (pr if isinstance(op, ast.In) else Pred("not", sub=[pr]))
             return None
         if isinstance(t, ast.Compare) and len(t.ops) == 1:
             v = self.tag_expr_var(t.left, st)
@@ -651,7 +676,7 @@ class Extractor:
         for sp in spec:
             if sp[0] == "list":
                 for (rel, final) in self._lists_owner(st, sp[1]).lists[sp[1]]["entries"]:
-                    out += self._replay(fi, rel, final, var, st, body_fn, site)
+                    out += self._replay(fi, rel, final, var, st, body_fn, site, tuple_names=tuple_index)
                 continue
             if sp[0] == "path":
                 _, src, preds = sp
@@ -669,6 +694,7 @@ class Extractor:
             if sp[0] == "axis":
                 _, src, axis, pred = sp
                 st2 = self._enter(st, var, ("axis", src, axis, pred))
+                st2.marked = pred.kind == "in" and any(t in self.mark_tags for t in pred.arg)
                 body = body_fn(st2)
                 mark = [Mark(var, self.mark_tags[t]) for t in (pred.arg if pred.kind == "in" else ()) if t in self.mark_tags]
                 lp = Loop(var, src, axis, pred, mark + body, site=site)
@@ -678,6 +704,7 @@ class Extractor:
             if sp[0] == "gen":
                 c: Call = sp[1]
                 st2 = self._enter(st, var, ("gen", c))
+                st2.marked = bool(self.mark_tags) and any(isinstance(a, ast.Constant) is False for a in [0]) and self._gen_yields_marked(c)
                 body = body_fn(st2)
                 self.sites.append(f"{site} [generator {c.fi.qual}]")
                 if len(body) == 1 and isinstance(body[0], Yield) and body[0].var == var:
@@ -690,7 +717,28 @@ class Extractor:
                 continue
         return out
 
-    def _replay(self, fi, rel: list, final, var: str, st: _St, body_fn, site: str) -> list:
+    def _gen_yields_marked(self, c: "Call") -> bool:
+        """Does the generator call enumerate a marked tag (a constant tuple / tag argument naming it)?"""
+        for _k, v in c.cenv:
+            vals = v if isinstance(v, (tuple, frozenset, list, set)) else (v,)
+            if any(isinstance(x, str) and x in self.mark_tags for x in vals):
+                return True
+        return False
+
+    def _tuple_node_index(self, st: _St, spec, arity: int):
+        """When a loop iterates a list of tuples collected earlier: which component holds the node (same for all entries)."""
+        idxs = set()
+        for sp in spec or []:
+            if sp[0] != "list":
+                return None
+            owner = self._lists_owner(st, sp[1])
+            for (_rel, final) in owner.lists[sp[1]]["entries"]:
+                if final[0] != "var" or len(final) < 3 or final[2] is None or final[2]["arity"] != arity:
+                    return None
+                idxs.add(final[2]["node_index"])
+        return idxs.pop() if len(idxs) == 1 else None
+
+    def _replay(self, fi, rel: list, final, var: str, st: _St, body_fn, site: str, tuple_names=None) -> list:
         """Re-create the loops / guards under which a node was collected into a list, then run the consumer's body on it."""
         def build(i: int, st_cur: _St) -> list:
             if i == len(rel):
@@ -699,6 +747,18 @@ class Extractor:
                 v = final[1]
                 st2 = self._enter(st_cur, var, None)
                 st2.chain = list(st_cur.chain)
+                tinfo = final[2] if len(final) > 2 else None
+                if tinfo and tuple_names:
+                    # the other components of the collected tuple: constants, or values looked up from the node's tag
+                    for j, nm in enumerate(tuple_names):
+                        if nm is None or j == tinfo["node_index"]:
+                            continue
+                        if j in tinfo["consts"]:
+                            st2.cenv[nm] = tinfo["consts"][j]
+                        elif j in tinfo["tagmaps"]:
+                            st2.tagmap[nm] = (var, tinfo["tagmaps"][j])
+                        else:
+                            st2.cenv.pop(nm, None)
                 return self.wrap(fi, st_cur, v, [Same(var, body_fn(st2))])
             el = rel[i]
             if el[0] == "loop":
@@ -788,9 +848,14 @@ class Extractor:
                         return acts, False
                     continue
                 # no traversal in either branch: an early exit here only skips (empty leaf etc.)
+                if (bt or et) and getattr(st, "marked", False):
+                    self.filters.append((fi, st.cur, s.test))
                 continue
             if isinstance(s, (ast.For, ast.AsyncFor)):
                 spec = self.iter_spec(fi, s.iter, st)
+                if spec and len(spec) == 1 and spec[0][0] == "gen" and not spec[0][1].fi.is_generator() and not self.returns_nodes(spec[0][1].fi) \
+                        and not self._returns_node_expr(spec[0][1].fi):
+                    spec = None  # a helper that returns values (not nodes): a plain call, then a loop over its results
                 if spec is None:
                     acts += self.expr(fi, s.iter, st)
                     b, _ = self.seq(fi, s.body, st)
@@ -805,13 +870,19 @@ class Extractor:
                     if isinstance(s.iter, ast.Call) and isinstance(s.iter.func, ast.Name) and s.iter.func.id == "enumerate":
                         tgt = tgt.elts[1]
                     else:
-                        names = [t for t in tgt.elts if isinstance(t, ast.Name) and t.id != "_"]
-                        if len(names) != 1:
-                            raise AnalysisError(f"treewalk: {fi.key}: cannot tell which tuple component is the node in for {short(s.target)}")
-                        tgt = names[0]
+                        tuple_names = [t.id if isinstance(t, ast.Name) else None for t in tgt.elts]
+                        idx_node = self._tuple_node_index(st, spec, len(tgt.elts))
+                        if idx_node is None:
+                            names = [t for t in tgt.elts if isinstance(t, ast.Name) and t.id != "_"]
+                            if len(names) != 1:
+                                raise AnalysisError(f"treewalk: {fi.key}: cannot tell which tuple component is the node in for {short(s.target)}")
+                            tgt = names[0]
+                        else:
+                            tgt = tgt.elts[idx_node]
+                            tuple_index = tuple_names
                 if not isinstance(tgt, ast.Name):
                     raise AnalysisError(f"treewalk: {fi.key}: unsupported loop target {short(s.target)}")
-                acts += self.loops(fi, spec, tgt.id, st, lambda st2: self.seq(fi, s.body, st2)[0], site=f"{fi.qual}: for {short(s.target, 20)} in {short(s.iter, 50)}")
+                acts += self.loops(fi, spec, tgt.id, st, lambda st2: self.seq(fi, s.body, st2)[0], site=f"{fi.qual}: for {short(s.target, 20)} in {short(s.iter, 50)}", tuple_index=tuple_index)
                 continue
             if isinstance(s, ast.While):
                 b, _ = self.seq(fi, s.body, st)
@@ -845,7 +916,7 @@ class Extractor:
                         continue
                     # constant local?
                     cv = self.fold(fi, val, st)
-                    if cv is not UNKNOWN and isinstance(cv, (str, int, bool, frozenset, tuple, type(None))):
+                    if cv is not UNKNOWN and isinstance(cv, (str, int, bool, frozenset, tuple, type(None), dict)):
                         st.cenv[name] = cv
                     else:
                         st.cenv.pop(name, None)
@@ -939,6 +1010,16 @@ class Extractor:
                 _, src, axis, pred = spec[0]
                 st.nodes[name] = ("find", src, axis, pred)
                 return True
+        if isinstance(val, ast.Call) and isinstance(val.func, ast.Attribute) and val.func.attr == "get" and len(val.args) == 1:
+            tv = self.tag_expr_var(val.args[0], st)
+            if tv is not None:
+                table = self.fold(fi, val.func.value, st)
+                if isinstance(table, dict):
+                    st.tagmap[name] = (tv, dict(table))
+                    st.cenv.pop(name, None)
+                    return True
+        if name in st.tagmap:
+            del st.tagmap[name]
         # list of nodes
         spec = None
         if isinstance(val, (ast.List,)) and not val.elts:
@@ -977,8 +1058,33 @@ class Extractor:
         if len(nodes_in) != 1:
             raise AnalysisError(f"treewalk: {fi.key}: several nodes appended at once to {lname}")
         var = st.node(nodes_in[0])
-        info["entries"].append((rel, ("var", var)))
+        tinfo = None
+        if isinstance(arg, ast.Tuple):
+            tinfo = {"arity": len(cand), "node_index": cand.index(nodes_in[0]), "consts": {}, "tagmaps": {}}
+            for j, c in enumerate(cand):
+                if c is nodes_in[0]:
+                    continue
+                if isinstance(c, ast.Name) and c.id in st.tagmap and st.tagmap[c.id][0] == var:
+                    tinfo["tagmaps"][j] = st.tagmap[c.id][1]
+                    continue
+                v = self.fold(fi, c, st)
+                if v is not UNKNOWN and isinstance(v, (str, int, bool, type(None))):
+                    tinfo["consts"][j] = v
+        info["entries"].append((rel, ("var", var, tinfo)))
         return True
+
+    @staticmethod
+    def _returns_node_expr(fi: FuncInfo) -> bool:
+        """`return [e for e in <node iteration> ...]` / `return node.findall(..)` style helpers."""
+        from .loader import walk_own
+        for n in walk_own(fi.node):
+            if isinstance(n, ast.Return) and n.value is not None:
+                v = n.value
+                if isinstance(v, (ast.ListComp, ast.GeneratorExp)) and isinstance(v.elt, ast.Name) and len(v.generators) == 1 and isinstance(v.generators[0].target, ast.Name) and v.elt.id == v.generators[0].target.id:
+                    return True
+                if isinstance(v, ast.Call) and isinstance(v.func, ast.Attribute) and v.func.attr in ("findall", "iter", "iterfind"):
+                    return True
+        return False
 
     @staticmethod
     def returns_nodes(fi: FuncInfo) -> bool:
